@@ -56,6 +56,15 @@ check("C20", "TLA+ handle protocol (Handles/HandlesAlgo) model-checked by TLC wi
       "without try/finally is shown to violate NoLeak); every real call kind x input x fault position is executed and its "
       "open/io/fault/close/end events must satisfy NoLeak, CallerKept and ObjectHoldsNoHandle at the end of the call.",
       TRUSTED, "DESIGN.md 4 C20")
+check("C16", "TLA+ model of the STRT/STOP/STEP refresh decision (WriteAlgo) model-checked by TLC; all its histories "
+      "origin;edit*;write^k executed on real LASFile objects with full snapshots; traces validated by TLC against "
+      "Trace_Write/WriteEffects",
+      "Model checking + trace validation: TLC checks over all histories within MaxOps that the modelled refresh decision "
+      "gives truthful STRT/STOP/STEP whenever the statement demands it, and every such history is executed for real; "
+      "Trace_Write checks per write() that arrays, order, mnemonics and descriptions are untouched, that every changed "
+      "item is one of the documented ones (explicit disjuncts), that VERS is untouched, that a repeated write is "
+      "byte-identical with no further change, and that the output's STRT/STOP/STEP/units are truthful when demanded.",
+      TRUSTED, "DESIGN.md 4 C16")
 
 
 def main():
